@@ -19,6 +19,15 @@ CHECKS = {
    text="search routines return None/input or a valid colour within the symbolic tolerance given; strict mode <= 5.0; modes 1/2 satisfy the REACH(3.0) chain invariant "
         "(resp. REACH or <= 15.0). DE is the CIEDE2000 symbol fixed by C11.",
    note=TB + "assumes C11 (DE is CIEDE2000, 0 for identical colours), C06 read-back.", ref='§8 C04'),
+ 'C05': dict(cat='proof', tech='formula conformance by ring-normal-form proof over the real AST (engine B) + Float64 SMT proof of the labels (engine A) + exhaustive numeric closure (engine D)',
+   text="luminance and contrast ratio: code == WCAG spec as exact-rational polynomial normal forms over the real ASTs (all real inputs; 0.03928 vs 0.04045 proved equivalent on 8-bit channels), symmetry / range / extremes as "
+        "real-arithmetic lemmas; labels: get_contrast_level == LEVEL for EVERY double in z3's FP theory, get_wcag_level, is_readable strings by engine A. Float rounding is closed numerically by engine D: 256-value table, all "
+        "2^24 luminances (thorough; quick bounded), 65,536 grey pairs, every colour vs black/white.",
+   note=TB + "engine B is over the reals (pow uninterpreted); float gap closed by exhaustive evaluation only on the finite domains listed; random pairs of the 2^48 are bounded (engine E).", ref='§8 C05'),
+ 'C11': dict(cat='other', tech='formula conformance and symmetry by ring-normal-form proof over the real AST (engine B) + exhaustive Lab numerics (engine D) + bounded pair checks incl. the 34 Sharma pairs (engine E)',
+   text="CIEDE2000: every constant/branch of the real routine equals the Sharma-Wu-Dalal formulation, symmetry, zero for identical colours, non-negativity proved over the reals; Lab pipeline proved against CIE with the library's "
+        "4-digit epsilon/kappa as declared tolerance class; Lab of all 2^24 colours within 0.05 (thorough: complete). Numeric agreement of the difference on pairs, finiteness and 'never raises' are bounded (engine E).",
+   note=TB + "transcendental functions are uninterpreted atoms with listed identities; 'never raises' not proved deductively.", ref='§8 C11'),
  'C06': dict(cat='proof', tech='exhaustive evaluation of the real formatter/parser on all 2^24 colours x 4 formats (engine D) + contract-based deductive verification of the format table (engine A)',
    text="round trip READ(format_color(c,f)) == CSS(format_color(c,f)) == c: thorough tier enumerates all 16,777,216 colours x {hex, rgb(), hsl(), tuple} with the real code, the "
         "library parser and an independent CSS Color 3 reference parser (complete, exhaustive:true); quick tier is a bounded sub-domain. format_color's table and make_readable's "
@@ -47,7 +56,8 @@ man = {
            'source_commits': [], 'add_only': True},
  'engines': [
    {'name': 'A pyvc', 'path': 'vf/symex.py', 'serves_properties': ['C01', 'C02', 'C04', 'C16'], 'kind_free_text': 'AST -> verification conditions, modular contracts, z3/cvc5'},
-   {'name': 'D fdx', 'path': 'vf/fdx.py', 'serves_properties': ['C01', 'C06'], 'kind_free_text': 'exhaustive evaluation of the real functions on finite colour domains (16 processes)'},
+   {'name': 'B ringconf', 'path': 'vf/ring.py', 'serves_properties': ['C05', 'C11'], 'kind_free_text': 'code == published formula as commutative-ring normal forms over uninterpreted atoms; path matching in z3 QF_LIRA'},
+   {'name': 'D fdx', 'path': 'vf/fdx.py', 'serves_properties': ['C01', 'C05', 'C06', 'C11'], 'kind_free_text': 'exhaustive evaluation of the real functions on finite colour domains (16 processes)'},
    {'name': 'E rtc', 'path': 'vf/rtc.py', 'serves_properties': ['C01', 'C02', 'C04', 'C06', 'C16'], 'kind_free_text': 'bounded run-time contracts on the real functions with independent oracles (never counted as proved)'},
  ],
  'checks': checks,
